@@ -79,6 +79,9 @@ class InverseLaplaceTransformer(UnilateralInverseTransformer):
 
         sigma1 = (zeta * omega0).simplify()
         omega1 = (omega0 * sym.sqrt(1 - zeta**2)).simplify()
+        if omega1 == 0:
+            # Critically damped
+            return self.ratfun(expr.expr, s, t)
         K = (K / omega1).simplify()
 
         E = sym.exp(-sigma1 * t)
